@@ -185,10 +185,41 @@ def check_reuse(case, ctx):
                                 "its score is %s" % (case["config"], len(case["runs"]), m, rankings, got, want))
 
 
+@st.composite
+def direct_cases(draw, tier):
+    ds = draw(gen.datasets(max_n=7, max_m=5))
+    univ = oracle.universe(ds["rankings"])
+    k = draw(st.integers(2, 4))
+    return {"scheme": draw(gen.any_schemes()), "dataset": ds, "cands": [draw(gen.candidates(univ)) for _ in range(k)],
+            "order": draw(st.permutations(list(range(k)))), "early": draw(st.booleans())}
+
+
+def check_direct(case, ctx):
+    """Consensus objects built directly (no algorithm, no features handed in): the score is computed on demand, for
+    each object from ITS rankings, dataset and scheme - several such objects alive at once, read in a drawn order"""
+    rankings, scheme, cands = case["dataset"]["rankings"], case["scheme"], case["cands"]
+    d, s = lib.mk_dataset(rankings), lib.mk_scheme(scheme)
+    inst = oracle.Instance(rankings, scheme)
+    want = [inst.score(c) for c in cands]
+    ctx.stats.case(case, len(set(want)) >= 2 and inst.n >= 3, gen.dataset_labels(case["dataset"]) + [
+        "distinct_scores:%d" % len(set(want))])
+    objs = []
+    for i, c in enumerate(cands):
+        objs.append(lib.must(lib.Consensus, [lib.mk_ranking(c)], d, s))
+        if case["early"] and i == 0:
+            lib.check_score(lib.must(lambda: objs[0].kemeny_score), want[0], scheme,
+                            "kemeny_score of Consensus([%s]) built directly" % cands[0])
+    for i in case["order"]:
+        lib.check_score(lib.must(lambda: objs[i].kemeny_score), want[i], scheme,
+                        "kemeny_score of Consensus([%s]) built directly (object %d of %d, read in order %s)" % (
+                            cands[i], i, len(cands), list(case["order"])))
+
+
 def subchecks():
     return [HypSub("reported_any", alg_cases, check, quick=6000, thorough=100000),
             HypSub("reported_self_scored", self_scored_cases, check, quick=5000, thorough=100000),
             HypSub("accepted_families_scaled", restricted_cases, check, 4000, 60000),
             HypSub("reported_large", large_alg_cases, check, 300, 4000),
             HypSub("instance_reuse", reuse_cases, check_reuse, 4000, 50000),
-            HypSub("zero_objective", zero_objective_cases, check_zero, quick=600, thorough=8000)]
+            HypSub("zero_objective", zero_objective_cases, check_zero, quick=600, thorough=8000),
+            HypSub("direct_objects", direct_cases, check_direct, quick=3000, thorough=40000)]
